@@ -220,6 +220,12 @@ def _case(n, k0, k1, k2, k3, mode):
                         and a.encode('utf-8', 'backslashreplace').decode() not in r['err']:
                     return rt.fail('C16:no-diagnostic-for-failed-argument:%s' % AK[kind],
                                    'argument %r (%s) failed, stderr does not name it: %r' % (a, AK[kind], r['err'][-400:]))
+        # nothing that was in a trash directory before the run is taken away or altered by it (e.g. the .trashinfo an
+        # interrupted earlier run left under a name this run wanted)
+        removed, added, changed = scen.delta(before, after)
+        for q in sorted(list(removed) + list(changed)):
+            if any(seg in q for seg in ('/.Trash-1000/', '/.Trash/1000/', '/v/td/', '/.local/share/Trash/')):
+                return rt.fail('C16:existing-trash-content-touched:' + label, '%s was %s by trash-put %r' % (q, 'removed' if q in removed else 'changed', args))
         if any_failed and r['exit'] == 0:
             return rt.fail('C16:exit-0-despite-failure:' + label, 'args %r under %r: some argument failed (stderr %r) but the exit status is 0' % (args, opts, r['err'][-200:]))
         if not any_failed and r['exit'] != 0:
